@@ -814,8 +814,9 @@ class InterpBuiltins:
             # clause of a CALLEE assumed at a call site: its effect predicates are relative to the callee's own log; an
             # unconstrained Bool keeps the other conjuncts of the clause (sound: the proved clause holds for the real value)
             return SV(self.run.fresh('callee_no_effect', B), BOOL)
-        if getattr(self, 'effects_unknown', None):
-            # iterations of an earlier loop emitted effects this path's log does not contain: the answer is unknown
+        unk = getattr(self, 'effects_unknown_names', set())
+        if unk and (not args or unk & set(args)):
+            # iterations of an earlier loop emitted such effects, which this path's log does not contain: unknown
             return SV(self.run.fresh('no_effect_unknown', B), BOOL)
         from .loops import LoopEffects
         mine = [(nme, a) for nme, a in self.effects[len(self.effects_base):] if not args or nme in args]
@@ -825,22 +826,23 @@ class InterpBuiltins:
             return self.bool_value(self.conj([z3.Not(a.some) for _, a in mine]))
         return True
 
-    def _effects_known(self):
+    def _effects_known(self, names=None):
         tag = getattr(self, 'effects_unknown', None)
-        if tag:
+        unk = getattr(self, 'effects_unknown_names', set())
+        if tag and (names is None or unk & set(names)):
             raise Unsupported(f'effect query after {tag}, whose iterations emit effects: the effect log of this path does '
                               f'not contain them (state the per-iteration effects in loop<K>_iter)')
 
     def bi_count_effects(self, args, kw, line):
         self._effects_guard()
-        self._effects_known()
+        self._effects_known(args)
         if self._loop_markers(args):
             raise Unsupported('count_effects of an effect emitted inside a loop over a symbolic collection')
         return sum(1 for nme, _ in self.effects[len(self.effects_base):] if nme in args)
 
     def bi_effect_at(self, args, kw, line):
         self._effects_guard()
-        self._effects_known()
+        self._effects_known((args[0],))
         nme, k = args[0], args[1] if len(args) > 1 else 0
         if self._loop_markers((nme,)):
             raise Unsupported('effect_at of an effect emitted inside a loop over a symbolic collection')
